@@ -16,6 +16,7 @@ NB_PRE = ("CREATE TABLE vf_nb.pre_t (k int NOT NULL DEFAULT 0 CHECK (k > 0), r v
           "ALTER TABLE vf_nb.pre_t ADD CONSTRAINT vf_nb_ck CHECK (k < 100);\nDROP INDEX CHECK DEFAULT;\n")
 NB_POST = ("CREATE TABLE vf_nb.post_t (k int, `r x` decimal(10,2) DEFAULT 1.5, u text UNIQUE);\n"
            "ALTER TABLE vf_nb.post_t ADD z int;\nCREATE INDEX vf_nb_post_i ON vf_nb.post_t (k);\nCREATE SEQUENCE vf_nb.post_seq INCREMENT BY 2;\n")
+NB_OPEN = "CREATE TABLE vf_nb.open_t (k int, v varchar(5))\n"
 BYSTANDER_DDL = ("CREATE EXTERNAL TABLE \"By\".[stander] (`a` string, b MAP<STRING, INT>)\nROW FORMAT SERDE 'org.apache.hadoop.hive.serde2.RegexSerDe'\n"
                  "WITH SERDEPROPERTIES (\n  \"input.regex\" = \"(x+)(y+)\"\n)\nSTORED AS TEXTFILE;\nCREATE SEQUENCE by_seq START WITH 3 CACHE 7;\nALTER TABLE \"By\".[stander] ADD c int CHECK (c > 0);\n")
 
@@ -162,9 +163,15 @@ def _neighbours(ddl, ctor, run_kw, keep):
     plans = [("statements of other objects in front of the script", NB_PRE, True)]
     if body.endswith(";") and body.count("/*") == body.count("*/"):
         plans.append(("statements of other objects behind the script", NB_POST, False))
+    import re as _re
+    if _re.match(r"(CREATE|ALTER|DROP)[ ]+\S", ddl, _re.I) and isinstance(keep, list):
+        # a statement WITHOUT ';' in front: it is closed by the first line of the script; asked with the script's last line end toggled as well
+        plans.append(("a statement without its terminator in front of the script", NB_OPEN, True))
     for path, nb, front in plans:
+        if nb is NB_OPEN and sh["rng"].random() < 0.5:
+            ddl = ddl.rstrip("\r\n") if ddl.endswith("\n") else ddl + "\n"
         alone = go(nb)
-        if alone[0] != "ok" and front:
+        if alone[0] != "ok" and front and "DROP INDEX" in nb:
             nb = nb[:nb.index("DROP INDEX")]              # loud mode refuses the skipped statement: go without it
             alone = go(nb)
         if alone[0] != "ok":
@@ -176,6 +183,20 @@ def _neighbours(ddl, ctor, run_kw, keep):
         sh["neighbour_n"] = sh.get("neighbour_n", 0) + 1
         if not (got[0] == "ok" and _same_grouped(got[1], exp)) and len(sh["found"]) < 20:
             sh["found"].append({"path": path, "ddl": ddl, "ctor": ctor or {}, "run_kw": run_kw, "observed": got, "first_call": exp})
+
+
+def classify_shadow(f):
+    """known-finding key for a shadow difference, by input feature and shape of the deviation (see known_findings.json), else None"""
+    import re as _re
+    if f["path"].startswith("a statement without its terminator in front"):
+        lines = [l for l in f["ddl"].replace("\r", "").split("\n") if l.strip()]
+        feature = any(_re.match(r"\s*(CREATE|ALTER|DROP)\s", a, _re.I) and a.rstrip().endswith(";") and not _re.match(r"\s*(CREATE|ALTER|DROP|SET)\s+\S", b, _re.I)
+                      for a, b in zip(lines, lines[1:]))
+        obs, exp = f["observed"], f["first_call"]
+        lost_table = obs[0] == "exc" and obs[1] == "ValueError" and "does not exists in tables data" in obs[2]      # the lost statement was the CREATE TABLE a later ALTER names
+        if feature and (lost_table or (obs[0] == "ok" and isinstance(obs[1], list) and isinstance(exp, list) and len(entities(obs[1])) <= len(entities(exp)))):
+            return "C03:pending-one-liner-glued-to-next-line"
+    return None
 
 
 def entities(result):
